@@ -137,9 +137,10 @@ def t_entry(side):
     return t
 
 
-def t_exit(ptype, is_open=True):
+def t_exit(ptype, is_open=True, xkind='futures'):
     def t(h):
-        w = common.futures_world(h, mode=common.any_mode(h))
+        # the kind of exchange is a finite enumeration: exits are reduce-only on the closing side on a spot exchange, too
+        w = common.futures_world(h, mode=common.any_mode(h)) if xkind == 'futures' else common.spot_world(h, with_strategy=True)
         pos = w.positions['BTC-USDT']
         cur = h.real('cur')
         h.assume(ops.compare('>', cur, 0))
@@ -578,6 +579,7 @@ def tasks(tier):
     for pt in ('long', 'short'):
         ts.append(Task(f'exit.{pt}', t_exit(pt), extra=x, overrides=dict(ov)))
     ts.append(Task('exit.closed', t_exit('long', False), extra=x, overrides=dict(ov)))
+    ts.append(Task('exit.spot', t_exit('long', True, 'spot'), extra=x, overrides=dict(ov)))
     for pt in ('long', 'short'):
         ts.append(Task(f'on-open.{pt}', t_on_open(pt), extra=x, overrides=dict(ov)))
     for kind in ('LIMIT', 'STOP'):
